@@ -1,6 +1,11 @@
 package main
 
 import (
+	"fmt"
+	"strings"
+
+	"github.com/robertkrimen/otto/ast"
+	"github.com/robertkrimen/otto/file"
 	"github.com/robertkrimen/otto/parser"
 	"ottoverif/cmd/c03/astx"
 	"ottoverif/h"
@@ -198,6 +203,14 @@ var earlyTable = []earlyT{
 	{"var x = /a/\ng = 1", "accept", "regexp_flags_detached", "7.8.5 / 7.9.1"},
 	{"x = /a/ g", "reject", "regexp_flags_detached", "7.8.5: flags follow the closing slash immediately"},
 	{"x = /a/g", "accept", "-", "7.8.5"},
+	{"/a/gg", "reject", "regexp_flags_unchecked", "7.8.5 / 15.10.4.1: a flag may not repeat; the error is early"},
+	{"/a/x", "reject", "regexp_flags_unchecked", "15.10.4.1: only g, i, m"},
+	{"var side = 1; if (false) /a/gg; side", "reject", "regexp_flags_unchecked", "7.8.5: early error even in code that never runs"},
+	{"x = /a/gig", "reject", "regexp_flags_unchecked", "15.10.4.1"},
+	{"x = /a/G", "reject", "regexp_flags_unchecked", "15.10.4.1"},
+	{"x = /a/gim", "accept", "-", "15.10.4.1"},
+	{"x = /a/mig", "accept", "-", "15.10.4.1"},
+	{"x = /a/m", "accept", "-", "15.10.4.1"},
 	{"a &^ b", "reject", "-", "7.7: `&^` is not an ES5 punctuator (a & ^b is a syntax error)"},
 	{"a &^= b", "reject", "-", "7.7"},
 }
@@ -216,6 +229,35 @@ var earlyFnTable = []struct{ params, body, expect, ref string }{
 	{"", "x = 1 } { y = 2", "reject", "15.3.2.1"},
 }
 
+// file.FileSet.Position must agree with File.Position (the per-file answer) for every index of every file of a set.
+var earlyFsTable = [][]string{
+	{"var a = 1;\nvar b = 2;"},
+	{"var a = 1;\nvar b = 2;", "x\n\ny = 3"},
+	{"a", "", "b\r\nc", "d\u2028e"},
+}
+
+func implEarlyFs(f []string) string {
+	fs := &file.FileSet{}
+	var progs []*ast.Program
+	for i, src := range strings.Split(astx.UnHex(f[3][1:]), "\x00") {
+		p, err := parser.ParseFile(fs, fmt.Sprintf("f%d.js", i), src, 0)
+		if err != nil {
+			return "bad-source"
+		}
+		progs = append(progs, p)
+	}
+	for _, p := range progs {
+		base := p.File.Base()
+		for off := 0; off < len(p.File.Source()); off++ {
+			a, b := fs.Position(file.Idx(base+off)), p.File.Position(file.Idx(base+off))
+			if (a == nil) != (b == nil) || a != nil && *a != *b {
+				return "reject"
+			}
+		}
+	}
+	return "accept"
+}
+
 func implEarlyFn(f []string) (out string) {
 	defer func() {
 		if r := recover(); r != nil {
@@ -230,6 +272,9 @@ func implEarlyFn(f []string) (out string) {
 }
 
 func genEarly(c *h.Ctx) {
+	for _, set := range earlyFsTable {
+		c.Add("earlyfs accept fileset_position x"+astx.Hex(strings.Join(set, "\x00")), "earlyfs")
+	}
 	for _, t := range earlyFnTable {
 		c.Add("earlyfn "+t.expect+" - x"+astx.Hex(t.params)+" x"+astx.Hex(t.body), "earlyfn", "earlyfn:"+t.expect)
 	}
